@@ -48,12 +48,37 @@ def _contains(node, types):
     return [n for n in ast.walk(node) if isinstance(n, types)]
 
 
+def _skips_seen_root(j, loop):
+    """The `continue` is the body of `if <loop variable> in <collection>:` directly in the loop."""
+    p = getattr(j, "parent", None)
+    if not (isinstance(p, ast.If) and p in loop.body and not p.orelse and isinstance(loop.target, ast.Name)):
+        return False
+    t = p.test
+    return isinstance(t, ast.Compare) and len(t.ops) == 1 and isinstance(t.ops[0], ast.In) and isinstance(t.left, ast.Name) and t.left.id == loop.target.id \
+        and isinstance(t.comparators[0], ast.Name) and all(isinstance(b, (ast.Continue, ast.Expr)) for b in p.body)
+
+
 def _stmts_with_jumps(body, types):
+    """Jump statements of the given kinds that leave / cut short the loop whose body this is: a `break` / `continue` inside a
+    nested loop belongs to that loop, a `return` leaves them all; nested function definitions are not entered."""
     out = []
+
+    def walk(n, nested):
+        if isinstance(n, (ast.FunctionDef, ast.AsyncFunctionDef, ast.Lambda, ast.ClassDef)):
+            return
+        if isinstance(n, types) and not (nested and isinstance(n, (ast.Break, ast.Continue))):
+            out.append(n)
+        inner = nested or isinstance(n, (ast.For, ast.While, ast.AsyncFor))
+        for fld, val in ast.iter_fields(n):
+            if isinstance(val, list):
+                for x in val:
+                    if isinstance(x, ast.AST):
+                        # the `else:` of a loop runs outside of it
+                        walk(x, nested if (isinstance(n, (ast.For, ast.While)) and fld == "orelse") else inner)
+            elif isinstance(val, ast.AST):
+                walk(val, inner)
     for s in body:
-        for n in ast.walk(s):
-            if isinstance(n, types):
-                out.append(n)
+        walk(s, False)
     return out
 
 
@@ -246,6 +271,12 @@ def r2_roots(ctx, chk, rule="C07.2"):
                       expected="for <f> in %s" % s.finals, found=norm_stmt(loop), construct="reverse_dfs root loop sliced")
         return
     jumps = _stmts_with_jumps(loop.body, (ast.Break, ast.Return, ast.Continue))
+    if jumps and all(isinstance(j, ast.Continue) and _skips_seen_root(j, loop) for j in jumps):
+        # `if final in seen: continue`: a final state that is already marked is not searched again - right exactly when every marked
+        # state is (or will be) expanded, which is the closure rule's business (C07.5), not this one's
+        chk.undecided(rule, where, "the root loop skips final states that are already in a collection (`%s`): whether each of those has been or will be expanded "
+                      "is the closure rule's question" % norm_stmt(getattr(jumps[0], "parent", jumps[0])))
+        return
     if jumps:
         chk.violation(rule, where, "the root loop can skip final states: `%s` at line %d" % (norm_stmt(jumps[0]), jumps[0].lineno),
                       expected="every final state starts a search", found=norm_stmt(jumps[0]), construct="reverse_dfs root loop early exit")
@@ -988,6 +1019,31 @@ def _grouping_and_pairs(ctx, chk, rule, sx, base_dict, tl, f, fn_of, where):
         appends = [x for x in Lg.effects if x[1] == "call" and x[2][0] == "mcall" and x[2][2] == "append"]
         good = [x for x in appends if x[0] == TRUE and x[2][1] == ("mcall", base_dict, "setdefault", (k, ("list", ())), ()) and x[2][3] == (val,)]
         ok_group = len(good) == 1 and len(appends) == 1
+        # the table filled in ONE pass over the transition list, without the intermediate pair list:
+        #   for s, ts in enumerate(transition_list): for _, t in ts: table.setdefault(t, []).append(s)
+        outer = [L for L in sx.loops.values() if L.kind == "for" and Lg.id in L.inner]
+        if not ok_group and len(outer) == 1 and Lg.source == ("elem", outer[0].id):
+            Lo1 = outer[0]
+            k1, val1 = simp(("idx", ge, C(1))), ("pos", Lo1.id)
+            good1 = [x for x in appends if x[0] == TRUE and x[2][1] == ("mcall", base_dict, "setdefault", (k1, ("list", ())), ()) and x[2][3] == (val1,)]
+            if len(good1) == 1 and len(appends) == 1:
+                w1 = gw_f.where(Lo1.node) if Lo1.node is not None and hasattr(gw_f, "where") else where
+                probs = []
+                if Lo1.source != tl or not Lo1.whole or not Lo1.enumerated:
+                    probs.append("the outer loop iterates `%s`%s, not enumerate(whole transition list)" % (show(Lo1.source), "" if Lo1.enumerated else " (not enumerated)"))
+                if not Lg.whole:
+                    probs.append("the inner loop iterates a slice of the state's transitions")
+                if Lo1.has_break or Lo1.has_return or Lg.has_break or Lg.has_return:
+                    probs.append("a loop exits early")
+                if getattr(Lg, "cont", FALSE) != FALSE or getattr(Lo1, "cont", FALSE) != FALSE:
+                    probs.append("transitions are skipped (`continue`)")
+                if probs:
+                    chk.violation(rule, where, "single-pass reversed table: " + "; ".join(probs), expected="for every state s and every transition (_, t) of s: table[t].append(s)",
+                                  found=norm_stmt(Lo1.node)[:120], construct="single-pass table partial")
+                else:
+                    chk.ok(rule, where, "single pass: for every state index s (enumerate, whole list) and every transition (_, t) of s, s is appended under key t "
+                           "(`setdefault(t, []).append(s)`, unconditional, multiplicity kept)")
+                return
     gwhere = gw_f.where(Lg.node)
     if not Lg.whole or Lg.has_break or Lg.has_return:
         chk.violation(rule, gwhere, "the grouping loop does not process every reversed pair (slice / break / continue)", expected="one append per pair", found=norm_stmt(Lg.node),
@@ -1142,6 +1198,10 @@ def r7_flag_list_membership(ctx, chk, rule="C07.3"):
 
 
 def run(ctx, chk):
+    # the property speaks of every solve: nothing computed by one solve (a memo on the game object, on a class, in a module)
+    # may be handed to the next one - a second solve of the same object, or of another game, would report stale values
+    from . import C10 as _C10
+    _C10.r2_no_carried_state(ctx, chk, "C07.pre:C10.2")
     r7_flag_list_membership(ctx, chk)
     r1_no_recursion(ctx, chk)
     r2_roots(ctx, chk)
